@@ -210,7 +210,7 @@ def strategy(tier, sub=None):
 
 
 def budget(tier, sub=None):
-    return {"examples": 16000 if tier == "quick" else 120000, "shards": 16}
+    return {"examples": 16000 if tier == "quick" else 480000, "shards": 16}
 
 
 def run_case(spec, sub=None):
